@@ -144,7 +144,7 @@ CLAIMED['C20'] = (
     'Lean model of the command line\'s path plan (absolute input / report / JSON paths computed before the internal chdir, JSON = sibling of the report '
     'with suffix .json) with theorems that the plan does not depend on the directory the simulator switches to, that an absolute output path is kept, and '
     'a kernel-evaluated witness separating the whole-path str.replace derivation (pinned tree, F4) from the sibling derivation; tied to the code by a '
-    'differential: `python -m geophires_x` subprocesses x output-argument shapes x start directories vs the in-process client vs Monte-Carlo-embedded runs '
+    'differential: `python -m geophires_x` subprocesses x output-argument shapes x start directories vs the in-process client vs the direct Model pipeline (fresh process, default report name) vs Monte-Carlo-embedded runs '
     'on the same succeeding and failing inputs (files created compared exactly with the Lean plan, exit status, report content, MC rows).',
     'the equality of numbers between entry points is observed by differential runs (all three go through GEOPHIRESv3.main, which the correspondence '
     'exercises), not proved; OS / argparse trusted; F4 fixed in /repo (4506c80)',
